@@ -104,6 +104,7 @@ type thread struct {
 	selIdx    int
 	wake      int64
 	spinEpoch uint64
+	selfW     uint64 // write-epoch steps caused by this thread itself
 	burn      int
 	writes    int
 	held      int // locks of the code under test this thread holds (lock model)
@@ -170,6 +171,15 @@ const (
 	EndBudget           // step budget exhausted
 	EndDiverged         // strict replay: script entry not enabled / script too short or too long
 )
+
+// SimCPUs is the processor count of the simulated machine (0 = the real one), see SetSimCPUs.
+var SimCPUs int
+
+// SetSimCPUs derives the simulated processor count of a worker process from the master seed and
+// the worker index; a replay derives the same value from the case's process reference.
+func SetSimCPUs(seed uint64, worker int) {
+	SimCPUs = [...]int{4, 1, 8, 2, 16, 3, 64, 100}[(seed*31+uint64(worker))%8]
+}
 
 var EndNames = [...]string{"complete", "frozen", "stuck_spin", "deadlock", "budget", "diverged"}
 
@@ -343,7 +353,9 @@ func (th *thread) noteReleased(m *LockModel, write bool) {
 	}
 	for i := th.nlocks - 1; i >= 0; i-- {
 		if th.locks[i].m == m && th.locks[i].write == write {
-			copy(th.locks[i:], th.locks[i+1:th.nlocks])
+			for j := i + 1; j < th.nlocks; j++ { // not copy(): the runtime's slice copy reports to the race detector
+				th.locks[j-1] = th.locks[j]
+			}
 			th.nlocks--
 			return
 		}
@@ -796,7 +808,7 @@ func (s *Sim) canRun(t int) bool {
 	case KGosched:
 		// burning: ONE thread per run (the first that spins without progress) may retry up to
 		// SpinBurn times although nothing changed; everybody else waits for progress
-		return th.spinEpoch != s.wEpoch || (s.res.Burns < s.cfg.SpinBurn && (s.burner < 0 || s.burner == t))
+		return th.spinEpoch != s.wEpoch-th.selfW || (s.res.Burns < s.cfg.SpinBurn && (s.burner < 0 || s.burner == t))
 	case KTimerRecv:
 		return th.timer.buffered
 	case KSleep:
@@ -877,12 +889,15 @@ func (s *Sim) dispatch(t int) {
 		}
 		th.noteReleased(th.lock, false)
 	case KGosched:
-		if th.spinEpoch == s.wEpoch {
+		// what a spinner waits for is a write by SOMEBODY ELSE (or the clock): its own writes
+		// (a failed attempt that bumps a statistics counter, say) show it nothing new, and a
+		// thread that re-enabled itself that way would keep the clock from ever advancing
+		if th.spinEpoch == s.wEpoch-th.selfW {
 			th.burn++     // a retry that cannot observe anything new ("burning" attempts);
 			s.res.Burns++ // the budget is per run and never refilled
 			s.burner = t
 		}
-		th.spinEpoch = s.wEpoch
+		th.spinEpoch = s.wEpoch - th.selfW
 	}
 	addr := th.addr
 	th.hasRes = false
@@ -905,6 +920,7 @@ func (s *Sim) dispatch(t int) {
 	s.event(t, k, s.sym(addr), th.resOK, val)
 	if th.resWrite || k == KUnlock || k == KRUnlock {
 		s.wEpoch++
+		th.selfW++
 		th.writes++
 	}
 }
@@ -1037,7 +1053,7 @@ func (s *Sim) loop() {
 	roundOpen := false
 	idleRounds := 0
 	epochAtRound := uint64(0)
-	rr := 0
+	rr, rrTick := 0, 0
 	scriptPos := 0
 	for step := 0; ; step++ {
 	again:
@@ -1210,6 +1226,10 @@ func (s *Sim) loop() {
 				if s.randn(4) == 0 {
 					choice = -2 - s.randn(25) // late wake-up: deadline + k ms
 				}
+			} else if rrTick++; step >= cfg.MaxSteps/2 && dl >= 0 && rrTick%(4*s.n+1) == 0 {
+				// fairness fallback, the clock's share: time passes even while threads that
+				// poll keep each other busy (a timed wait must reach its deadline)
+				choice = -1
 			} else if step >= cfg.MaxSteps/2 {
 				// fairness fallback: round robin
 				for i := 0; i < s.n; i++ {
